@@ -22,8 +22,10 @@ EXTENDS FPEval, Json, Params
 MR == JsonDeserialize(ModelFile)            \* annotated trees of MR1..MR4
 Sch == JsonDeserialize(ModelSchemaFile)
 Kinds == JsonDeserialize(TypesFile)         \* FHIR type name -> "resource" | "complex" | "prim"
-Forest == <<MR.MR1, MR.MR4>>
-Input == <<RefOf(Forest, 1, <<>>)>>
+Forest == <<MR.MR1, MR.MR4, MR.MR2>>
+(* every program is evaluated on TWO input resources, the Patient MR1 and the Observation MR2 (choice-typed values of  *)
+(* several types, a Quantity, an instant, a bound code); a path starts with the type name that selects one of them     *)
+Input == <<RefOf(Forest, 1, <<>>), RefOf(Forest, 3, <<>>)>>
 
 Dec(neg, coef, e) == DItem(DMake(neg, NFromInt(coef), e))      \* small coefficients only
 Cp(str) == str                                                  \* code points are written out below
@@ -63,6 +65,7 @@ Bin(op, l, r) == [k |-> "bin", op |-> op, l |-> l, r |-> r]
 Neg(in) == [k |-> "neg", in |-> in]
 TypeOpE(op, in, ns, name) == [k |-> "typeop", op |-> op, in |-> in, ns |-> ns, name |-> name]
 Pat == RootE("Patient")
+Obn == RootE("Observation")
 
 (******************************** literals *********************************)
 (* A literal node carries its source text; that the text denotes the item   *)
@@ -137,7 +140,8 @@ NamesOf(c) == IF AllEl(c) THEN ValidNames(Sch, NodeAt(Forest[c[1].r], c[1].addr)
 Interesting == {"name", "given", "family", "use", "telecom", "rank", "value", "system", "identifier", "extension", "url", "period", "start",
                 "active", "contact", "relationship", "text", "gender", "birthDate", "communication", "preferred", "language", "address", "line",
                 "city", "generalPractitioner", "reference", "display", "maritalStatus", "coding", "code", "id", "meta", "lastUpdated", "tag",
-                "multipleBirth", "deceased", "versionId", "photo", "link", "type", "other", "managingOrganization"}
+                "multipleBirth", "deceased", "versionId", "photo", "link", "type", "other", "managingOrganization",
+                "component", "effective", "issued", "referenceRange", "low", "high", "unit", "status", "subject"}
 FieldsFor(c) == LET ns == NamesOf(c) IN (ns \cap Interesting) \cup (IF ns = {} THEN {} ELSE {"zz"})
 
 (* a tagged step *)
@@ -264,6 +268,9 @@ Starts == {Var("uni"), Var("uni1"), Var("looks"), Var("digits"), Var("min"), Var
            Fld(Pat, "contact"), Fld(Pat, "extension"), Fld(Pat, "birthDate"), Fld(Pat, "active"), Fld(Pat, "multipleBirth"), Fld(Pat, "deceased"),
            Fld(Fld(Pat, "telecom"), "rank"), Fld(Fld(Pat, "extension"), "value"), Fld(Fld(Pat, "meta"), "lastUpdated"), Fld(Pat, "gender"),
            Fld(Pat, "id"), Fld(Fld(Pat, "address"), "line"), Fld(Fld(Pat, "name"), "suffix"),
+           Obn, Fld(Obn, "value"), Fld(Obn, "component"), Fld(Fld(Obn, "component"), "value"), Fld(Obn, "effective"), Fld(Obn, "issued"),
+           Fld(Obn, "status"), Fld(Fld(Fld(Obn, "referenceRange"), "low"), "value"), Fld(Fld(Fld(Obn, "component"), "code"), "text"),
+           Fld(Fld(Obn, "value"), "value"), Fld(Fld(Obn, "value"), "unit"), Fld(Fld(Fld(Obn, "code"), "coding"), "display"),
            Var("ints"), Var("mixed"), Var("none"), Var("decs"), Var("strs"), Var("seven"), Var("big"), Var("neg")}
           \cup AllLits
 
